@@ -38,7 +38,8 @@ def main():
     ap.add_argument("--tier", default=os.environ.get("VERIF_TIER", "quick"))
     ap.add_argument("--jobs", type=int, default=int(os.environ.get("VERIF_JOBS", "16")))
     ap.add_argument("--only", default=None, help="substring filter on obligation names (development aid)")
-    ap.add_argument("--time-scale", type=float, default=float(os.environ.get("VERIF_TIME_SCALE", "1")))
+    ap.add_argument("--time-scale", type=float, default=None,
+                    help="factor on every obligation's time budget (default 1 quick, 4 thorough; env VERIF_TIME_SCALE)")
     a = ap.parse_args()
     tier = a.tier if a.tier in ("quick", "thorough") else "quick"
     try:
@@ -47,7 +48,8 @@ def main():
         seed = 0
     os.chdir(VERIF)
     mod = importlib.import_module("symx.harness." + a.prop.lower())
-    sys.exit(mod.main(tier=tier, seed=seed, jobs=a.jobs, only=a.only, time_scale=a.time_scale))
+    ts = a.time_scale if a.time_scale is not None else float(os.environ.get("VERIF_TIME_SCALE", "1" if tier == "quick" else "4"))
+    sys.exit(mod.main(tier=tier, seed=seed, jobs=a.jobs, only=a.only, time_scale=ts))
 
 
 if __name__ == "__main__":
